@@ -441,24 +441,31 @@ Theorem C18_result_is_last_attempts : forall fl cfg atts n prev r e ls,
 Proof. exact result_is_last_attempts. Qed.
 Print Assumptions C18_result_is_last_attempts.
 
-(* ---- the middleware that run are those registered on THAT client (through Clone) ---- *)
-(* after the last registration on a client, nothing registered on - or cloned from - any client
-   (the original, a sibling, a clone of the clone) changes what that client carries *)
+(* ---- what runs / binds is what THAT client carries (through Clone): response middleware, request
+   middleware, round-trip wrappers, common error type ---- *)
+(* after the last registration / setting on a client, nothing registered on, set on or cloned from
+   any other client (the original, a sibling, a clone of the clone) changes what that client carries *)
 Theorem C18_later_ops_on_others_irrelevant : forall ops s c, (c < length s)%nat ->
   forallb (fun o => negb (touches c o)) ops = true ->
-  nth c (fold_left step ops s) ([], []) = nth c s ([], []).
+  nth c (fold_left step ops s) cl0 = nth c s cl0.
 Proof. exact later_ops_on_others_irrelevant. Qed.
 Print Assumptions C18_later_ops_on_others_irrelevant.
 
-Theorem C18_clone_copies : forall s src, nth (length s) (step s (CClone src)) ([], []) = nth src s ([], []).
+Theorem C18_clone_copies : forall s src, nth (length s) (step s (CClone src)) cl0 = nth src s cl0.
 Proof. exact clone_copies. Qed.
 Print Assumptions C18_clone_copies.
 
-Theorem C18_reg_appends : forall s c r m, (c < length s)%nat ->
-  nth c (step s (CReg c r m)) ([], []) =
-  (if r then (fst (nth c s ([], [])) ++ [m], snd (nth c s ([], []))) else (fst (nth c s ([], [])), snd (nth c s ([], [])) ++ [m])).
+Theorem C18_reg_appends : forall s c k m, (c < length s)%nat ->
+  nth c (step s (CReg c k m)) cl0 = reg k m (nth c s cl0).
 Proof. exact reg_appends. Qed.
 Print Assumptions C18_reg_appends.
+
+Theorem C18_errtype_sets_own : forall s c t, (c < length s)%nat ->
+  cl_et (nth c (step s (CErrType c t)) cl0) = t /\
+  cl_resp (nth c (step s (CErrType c t)) cl0) = cl_resp (nth c s cl0) /\
+  cl_wraps (nth c (step s (CErrType c t)) cl0) = cl_wraps (nth c s cl0).
+Proof. exact errtype_sets_own. Qed.
+Print Assumptions C18_errtype_sets_own.
 
 (* ---- every verb-style entry point: the table regenerated from request.go / request_wrapper.go ----
    (Get/Post/Put/Patch/Delete/Head/Options, their Must* forms, and the package-level functions on
